@@ -53,6 +53,12 @@ class PolyOracle:
 
     def recount(self, out, ordered=None):
         from engine.oracles import clades as CL
+        for which, tree in (("object", out.input.object_tree), ("species", out.input.species_lca.tree)):
+            names = [n.name for n in tree.traverse()]
+            dup = sorted(set(x for x in names if names.count(x) > 1))
+            if dup or any(not x for x in names):
+                # the input's nodes were uniquely named; a refined tree in which a name designates two nodes has lost the node that name stood for
+                return None, f"the solution's {which} tree has unnamed nodes or repeated names {dup}"
         c = D.case_from_output(out, self.case)
         for which, orig, got in (("object", self.case.ot, c.ot), ("species", self.case.st, c.st)):
             if not D.is_binary_tuple(got):
@@ -546,6 +552,8 @@ def random_poly_tuple(rng, leaves, max_arity=3, npoly=1):
 
 def random_poly_input(rng, no, ns, nf, ordered, poly_object=True, poly_species=False, max_arity=3):
     d = random_super_input(rng, no, ns, nf, ordered)
+    if rng.random() < 0.5:
+        d["oprefix"], d["sprefix"] = "O", "S"     # ancestors already called O<k> / S<k>, like trees labelled by an earlier run
     ol = sorted(d["leafmap"])
     sl = [D.SP_NAMES[i] for i in range(ns)]
     if poly_object and no >= 3:
